@@ -268,9 +268,7 @@ class Check(PropertyCheck):
             if e[0] == "bytes":
                 out.append("BBytes [" + ";".join(str(b) for b in e[1]) + "]")
             else:
-                one = dict(case, _events=[e])
-                inner = c05.Check.model_input(self, one)
-                out.append("BEv (" + inner[1:-1] + ")")
+                out.append("BEv (" + c05.hevent_coq(e) + ")")
         return "[" + "; ".join(out) + "]"
 
     def obs_to_z(self, case, obs):
